@@ -184,6 +184,14 @@ def b20(rng):
     mb = 0x20 << 48
     if rng.random() < 0.05:
         return mb
+    u = rng.random()
+    if u < 0.12:
+        # degenerate but legal identifications: blank (eight spaces), one repeated character, a short callsign padded with spaces
+        ch = rng.choice(LEGAL6)
+        n = rng.choice((0, 0, 1, 2, 8))
+        for k in range(8):
+            mb |= (ch if k < n else 32) << (42 - 6 * k)
+        return mb
     for k in range(8):
         mb |= rng.choice(LEGAL6) << (42 - 6 * k)
     return mb
